@@ -54,7 +54,9 @@ def run(spec):
     cpu_limit = float(spec.get('case_cpu_s', 300))
     signal.signal(signal.SIGVTALRM, _on_timer)
     n_cases = 0
+    slow = []
     for idx, case in cases:
+        t_case = time.time()
         col.case = case
         col.case_index = idx
         col.events.clear()
@@ -85,6 +87,9 @@ def run(spec):
             signal.setitimer(signal.ITIMER_VIRTUAL, 0)
         if col.depth:
             col.depth = 0
+        dt = time.time() - t_case
+        if dt > 2:
+            slow.append([round(dt, 1), idx, str(case.get('fam', case.get('kind', '')))[:60]])
     col.case = None
     try:
         fin = getattr(mod, 'finish', None)
@@ -93,7 +98,7 @@ def run(spec):
     except Exception as e:
         col.harness_error('finish', e)
     col.count('cases', n_cases)
-    result.update(col.dump(), wall_s=time.time() - t0,
+    result.update(col.dump(), wall_s=time.time() - t0, slow_cases=sorted(slow, reverse=True)[:6],
                   bindings=attach.bindings(),
                   concepts_file=getattr(sys.modules.get('concepts'), '__file__', None))
     return result
